@@ -401,4 +401,26 @@ func init() {
 		Outside: []string{"Joe composed with the real FiniteReplayer/ValidReplayer in one run (assume-guarantee through the replayer contract)", "buffer capacity effects (decided in C08/C09)"},
 		Oracle:  "the Send sequence of the resuming subscriber equals: the matching messages put after the presented one (when that one was put before the subscription was processed) or after its registration otherwise, each once, in Put order; every delivered message is the ID-carrying copy returned by Put",
 	}
+
+	checks["C05"] = &propCheck{
+		ID: "C05",
+		Quick: []hrun{
+			{Harness: "vhC05", Params: P("MSGS", 2, "ATTEMPTS", 2, "AUTO", 1, "N", 1), Covers: []string{"C05/all-received", "C05/cut-mid-stream"}},
+			{Harness: "vhC05", Params: P("MSGS", 2, "ATTEMPTS", 2, "AUTO", 0, "N", 1), Covers: []string{"C05/all-received", "C05/cut-mid-stream"}},
+			{Harness: "vhC05", Params: P("MSGS", 2, "ATTEMPTS", 2, "AUTO", 0, "N", 1, "VALID", 1), Covers: []string{"C05/all-received", "C05/cut-mid-stream"}},
+		},
+		Thorough: []hrun{
+			{Harness: "vhC05", Params: P("MSGS", 2, "ATTEMPTS", 2, "AUTO", 0, "N", 2), Covers: []string{"C05/all-received"}},
+			{Harness: "vhC05", Params: P("MSGS", 3, "ATTEMPTS", 2, "AUTO", 1, "N", 1), Covers: []string{"C05/all-received"}},
+			{Harness: "vhC05", Params: P("MSGS", 2, "ATTEMPTS", 3, "AUTO", 1, "N", 0), Covers: []string{"C05/all-received"}},
+			{Harness: "vhC05", Params: P("MSGS", 2, "ATTEMPTS", 2, "AUTO", 1, "N", 1, "VALID", 1), Covers: []string{"C05/all-received"}},
+		},
+		Labels: []string{"C05/", "panic:"},
+		Bounds: map[string]string{
+			"quick":    "2 messages (symbolic data <=1 byte incl. line breaks, optional symbolic type <=1 byte), every placement of their publication on the timeline {client away, while attempt 1 is connected, away, while attempt 2 is connected}, 2 connection attempts, the first cut at EVERY byte offset of the response body abruptly (read error) or, at message boundaries, by the handler returning; FiniteReplayer with automatic and manual IDs and ValidReplayer with manual IDs, capacity >= number of messages",
+			"thorough": "data <=2 bytes; 3 messages; 3 attempts (2 cuts)",
+		},
+		Outside: []string{"net/http client and server, TCP, chunked framing (trusted to deliver a prefix of the handler's bytes followed by an error or a clean end)", "Joe's goroutines: replaced by 'replay then register is atomic, live delivery is exactly once in Put order', which C03/C04 decide", "cuts inside the response headers (the body is cut at every offset from 0)", "'the server process survives' is C06's no-crash clause"},
+		Oracle:  "the callback log from the first received event on equals the published list from that event on: each once, in order, with the published ID, type and LF-joined data",
+	}
 }
